@@ -29,6 +29,65 @@ type pair struct {
 	tgt pdf.Reference
 }
 
+// target is what the oracle needs of a target file: objects by reference and
+// the decoded bytes of a stream.
+type target interface {
+	Get(ref pdf.Reference, canObjStm bool) (pdf.Native, error)
+	streamData(stm *pdf.Stream) ([]byte, error)
+}
+
+// fileTarget is a target file reopened with the library's Reader.
+type fileTarget struct{ *pdf.Reader }
+
+func (t fileTarget) streamData(stm *pdf.Stream) ([]byte, error) {
+	return pdf.ReadAll(t.Reader, nil, stm, 1<<20)
+}
+
+// memTarget is a target described directly as data: a table of objects and,
+// for every stream, its decoded bytes. No code of the library is involved in
+// building or reading it, so the oracle can be tested against it whatever
+// state the library is in.
+type memTarget struct {
+	objs map[pdf.Reference]pdf.Native
+	data map[*pdf.Stream][]byte
+	next uint32
+}
+
+func newMemTarget() *memTarget {
+	return &memTarget{objs: map[pdf.Reference]pdf.Native{}, data: map[*pdf.Stream][]byte{}, next: 1}
+}
+
+func (m *memTarget) Alloc() pdf.Reference {
+	ref := pdf.NewReference(m.next, 0)
+	m.next++
+	return ref
+}
+
+func (m *memTarget) Put(ref pdf.Reference, obj pdf.Object) error {
+	if obj == nil {
+		m.objs[ref] = nil
+		return nil
+	}
+	nat, ok := obj.(pdf.Native)
+	if !ok {
+		return fmt.Errorf("memTarget.Put: %T is not a native object", obj)
+	}
+	m.objs[ref] = nat
+	return nil
+}
+
+func (m *memTarget) Get(ref pdf.Reference, canObjStm bool) (pdf.Native, error) {
+	return m.objs[ref], nil
+}
+
+func (m *memTarget) streamData(stm *pdf.Stream) ([]byte, error) {
+	d, ok := m.data[stm]
+	if !ok {
+		return nil, fmt.Errorf("memTarget: unknown stream")
+	}
+	return d, nil
+}
+
 // checker is the oracle: it walks the source graph (known from the case, not
 // read through the library) and the reopened target in lockstep, learning
 // the relation "source object -> target object" as it goes.
@@ -40,7 +99,7 @@ type checker struct {
 	src    *source
 	g      Graph
 	tgtCfg string
-	tr     *pdf.Reader // nil: compare against the source file itself (fixture self check)
+	tr     target // nil: compare against the source file itself (fixture self check)
 	f      *fails
 
 	m        map[int]pdf.Reference // terminal source object -> target object
@@ -54,7 +113,7 @@ type checker struct {
 	unspecified int // positions where the statement is silent
 }
 
-func newChecker(s *source, tgtCfg string, tr *pdf.Reader, f *fails) *checker {
+func newChecker(s *source, tgtCfg string, tr target, f *fails) *checker {
 	return &checker{src: s, g: s.g, tgtCfg: tgtCfg, tr: tr, f: f,
 		m: map[int]pdf.Reference{}, mChain: map[int]bool{}, img: map[pdf.Reference]int{},
 		redirect: map[int]pdf.Reference{}, fresh: map[pdf.Reference]int{}, seen: map[pair]bool{}}
@@ -62,12 +121,30 @@ func newChecker(s *source, tgtCfg string, tr *pdf.Reader, f *fails) *checker {
 
 func (ck *checker) cfgTag() string { return "src=" + ck.src.cfg + ";tgt=" + ck.tgtCfg }
 
+// kindTag names the kind of source object j (part of fingerprints: where a
+// wrong value sits is part of the class of a defect).
+func (ck *checker) kindTag(j int) string {
+	switch ck.g[j].K {
+	case 'i':
+		return "integer-object"
+	case 's':
+		return "string-object"
+	case 'A':
+		return "array"
+	case 'D':
+		return "dict"
+	case 'S':
+		return "stream-dict"
+	}
+	return "reference-object"
+}
+
 // resolveTgt follows references in the target.
-func (ck *checker) resolveTgt(ref pdf.Reference, where string) (pdf.Reference, pdf.Object, bool) {
+func (ck *checker) resolveTgt(ref pdf.Reference, kind, where string) (pdf.Reference, pdf.Object, bool) {
 	for i := 0; i < 8; i++ {
 		v, err := ck.tr.Get(ref, true)
 		if err != nil {
-			ck.f.add("target-object-unreadable", "%s: target object %v does not read: %v", where, ref, err)
+			ck.f.add("target-object-unreadable:"+kind+";"+ck.cfgTag(), "%s: target object %v does not read: %v", where, ref, err)
 			return ref, nil, false
 		}
 		next, isRef := v.(pdf.Reference)
@@ -91,7 +168,7 @@ func (ck *checker) isNullInTarget(tv pdf.Object, where string) bool {
 		return true
 	}
 	if ref, ok := tv.(pdf.Reference); ok && ck.tr != nil {
-		_, v, ok := ck.resolveTgt(ref, where)
+		_, v, ok := ck.resolveTgt(ref, "null", where)
 		return ok && v == nil
 	}
 	return false
@@ -107,7 +184,7 @@ func (ck *checker) item(it Item, j, p int, tv pdf.Object, where string) {
 	case 's':
 		s, ok := tv.(pdf.String)
 		if !ok || !bytes.Equal(s, itemStr(j, p)) {
-			ck.f.add("value-differs:string;"+ck.cfgTag(), "%s: want string %q, target has %s", where, itemStr(j, p), hx.Show(tv))
+			ck.f.add("value-differs:string;in="+ck.kindTag(j)+";"+ck.cfgTag(), "%s: want string %q, target has %s", where, itemStr(j, p), hx.Show(tv))
 		}
 	case 'n':
 		if !ck.isNullInTarget(tv, where) {
@@ -129,6 +206,29 @@ func (ck *checker) item(it Item, j, p int, tv pdf.Object, where string) {
 		case !ok || countNonNull(d) != 0:
 			ck.f.add("value-differs:empty-dict", "%s: want <<>>, target has %s", where, hx.Show(tv))
 		}
+	case 'm':
+		s, ok := tv.(pdf.String)
+		if !ok || !bytes.Equal(s, nestedStr(j, p)) {
+			ck.f.add("value-differs:string;in="+ck.kindTag(j)+";"+ck.cfgTag(), "%s: want string %q (inside a nested direct container), target has %s", where, nestedStr(j, p), hx.Show(tv))
+		}
+	case 'A':
+		a, ok := tv.(pdf.Array)
+		if !ok || a == nil {
+			ck.f.add("value-differs:nested-array", "%s: want a direct array, target has %s", where, hx.Show(tv))
+			return
+		}
+		if len(a) != 1 {
+			ck.f.add("array-length", "%s: want 1 element, target has %s", where, hx.Show(tv))
+			return
+		}
+		ck.item(it.inner(), j, p, a[0], where+" [0]")
+	case 'T':
+		d, ok := tv.(pdf.Dict)
+		if !ok || d == nil {
+			ck.f.add("value-differs:nested-dict", "%s: want a direct dictionary, target has %s", where, hx.Show(tv))
+			return
+		}
+		ck.dictEntries([]pdf.Name{nestedKey}, []Item{it.inner()}, j, p, d, nil, where)
 	default:
 		ck.refItem(it, tv, where)
 	}
@@ -148,7 +248,7 @@ func countNonNull(d pdf.Dict) int {
 func (ck *checker) refItem(it Item, tv pdf.Object, where string) {
 	if ck.tr == nil {
 		// fixture self check: the reference must be there literally
-		if tv != ck.src.itemObj(it, 0, 0) {
+		if tv != pdf.Object(ck.src.itemObj(it, 0, 0)) {
 			ck.f.add("source", "%s: want %v, source has %s", where, ck.src.itemObj(it, 0, 0), hx.Show(tv))
 		}
 		return
@@ -188,7 +288,7 @@ func (ck *checker) refItem(it Item, tv pdf.Object, where string) {
 		}
 		return
 	}
-	tt, _, ok := ck.resolveTgt(ref, where)
+	tt, _, ok := ck.resolveTgt(ref, ck.kindTag(t), where)
 	if !ok {
 		return
 	}
@@ -230,7 +330,12 @@ func (ck *checker) drain() {
 		ck.work = ck.work[:len(ck.work)-1]
 		tv, err := ck.tr.Get(p.tgt, true)
 		if err != nil {
-			ck.f.add("target-object-unreadable", "copy of object %d: target object %v does not read: %v", p.src, p.tgt, err)
+			ck.f.add("target-object-unreadable:"+ck.kindTag(p.src)+";"+ck.cfgTag(), "copy of object %d: target object %v does not read: %v", p.src, p.tgt, err)
+			continue
+		}
+		if o := ck.g[p.src]; tv == nil && !((o.K == 'A' || o.K == 'D') && len(o.It) == 0) {
+			// (an empty array or dictionary that became null has its own class)
+			ck.f.add("copied-object-is-null", "copy %v of object %d (%s): the target object is null", p.tgt, p.src, o)
 			continue
 		}
 		ck.plainValue(ck.g[p.src], p.src, tv, fmt.Sprintf("copy %v of object %d", p.tgt, p.src))
@@ -243,7 +348,7 @@ func (ck *checker) isDead(it Item) (dead, undef bool) {
 	switch it.K {
 	case 'n':
 		return true, false
-	case 'r', 'x', 'f':
+	case 'r', 'x', 'f', 'g':
 		if it.K == 'r' {
 			if _, ok := ck.redirect[it.R]; ok {
 				return false, false
@@ -255,10 +360,13 @@ func (ck *checker) isDead(it Item) (dead, undef bool) {
 	return false, false
 }
 
-func (ck *checker) dictEntries(keys []pdf.Name, its []Item, j int, d pdf.Dict, ignore map[pdf.Name]bool, where string) {
+// dictEntries compares the entries keys[k] = its[k]; the item its[k] is the
+// item at position p0+k of object j.
+func (ck *checker) dictEntries(keys []pdf.Name, its []Item, j, p0 int, d pdf.Dict, ignore map[pdf.Name]bool, where string) {
 	want := map[pdf.Name]bool{}
-	for p, it := range its {
-		key := keys[p]
+	for k, it := range its {
+		p := p0 + k
+		key := keys[k]
 		want[key] = true
 		tv, present := d[key]
 		w := fmt.Sprintf("%s /%s", where, key)
@@ -307,7 +415,7 @@ func (ck *checker) plainValue(o Obj, j int, tv pdf.Object, where string) {
 	case 's':
 		s, ok := tv.(pdf.String)
 		if !ok || !bytes.Equal(s, objStr(j)) {
-			ck.f.add("value-differs:string;"+ck.cfgTag(), "%s: want string %q, target has %s", where, objStr(j), hx.Show(tv))
+			ck.f.add("value-differs:string;in=string-object;"+ck.cfgTag(), "%s: want string %q, target has %s", where, objStr(j), hx.Show(tv))
 		}
 	case 'A':
 		a, ok := tv.(pdf.Array)
@@ -336,20 +444,19 @@ func (ck *checker) plainValue(o Obj, j int, tv pdf.Object, where string) {
 			ck.f.add("value-differs:dict", "%s: want a dictionary, target has %s", where, hx.Show(tv))
 			return
 		}
-		ck.dictEntries(dictKeys, o.It, j, d, nil, where)
+		ck.dictEntries(dictKeys, o.It, j, 0, d, nil, where)
 	case 'S':
 		stm, ok := tv.(*pdf.Stream)
 		if !ok || stm == nil {
 			ck.f.add("value-differs:stream", "%s: want a stream, target has %s", where, hx.Show(tv))
 			return
 		}
-		ck.dictEntries([]pdf.Name{stmKey}, o.It, j, stm.Dict, stmIgnore, where)
-		var getter pdf.Getter = ck.tr
+		ck.dictEntries([]pdf.Name{stmKey}, o.It, j, 0, stm.Dict, stmIgnore, where)
 		if ck.tr == nil {
 			return
 		}
 		tag := "stream=" + stmNames[o.V] + ";" + ck.cfgTag()
-		data, err := pdf.ReadAll(getter, nil, stm, 1<<20)
+		data, err := ck.tr.streamData(stm)
 		if err != nil {
 			ck.f.add("stream-undecodable:"+tag, "%s: stream does not decode in the target: %v (dict %s)", where, err, hx.Show(stm.Dict))
 			return
@@ -369,6 +476,15 @@ func head(b []byte) []byte {
 	return b
 }
 
+// lastKey identifies the reference an 'R' or 'G' call was made with (the
+// live reference to object J and the stale one are different references).
+func lastKey(op Op) int {
+	if op.K == 'G' {
+		return 100 + op.J
+	}
+	return op.J
+}
+
 // judge is the oracle for one execution.
 func judge(s *source, prog []Op, tgtCfg string, ex *execution) (f fails, outcome string) {
 	if ex.fatal != "" {
@@ -383,7 +499,7 @@ func judge(s *source, prog []Op, tgtCfg string, ex *execution) (f fails, outcome
 		var its []Item
 		if st.op.K == 'C' {
 			its = s.g[st.op.J].It
-		} else if st.op.J >= 0 {
+		} else if st.op.K == 'R' && st.op.J >= 0 {
 			its = []Item{{'r', st.op.J}}
 		}
 		if s.g.hasRefLoop(s.g.reachFromItems(its)) {
@@ -397,13 +513,17 @@ func judge(s *source, prog []Op, tgtCfg string, ex *execution) (f fails, outcome
 		f.add("target-close-error:"+normaliseMsg(ex.closeErr.Error()), "closing the target: %v", ex.closeErr)
 		return f, "error"
 	}
-	tr, err := pdf.NewReader(bytes.NewReader(ex.tgt), int64(len(ex.tgt)), &pdf.ReaderOptions{ErrorHandling: pdf.ErrorHandlingReport})
-	if err != nil {
-		f.add("target-unreadable", "the target does not reopen: %v", err)
-		return f, "error"
+	var tr target = ex.mem
+	if ex.mem == nil {
+		rd, err := pdf.NewReader(bytes.NewReader(ex.tgt), int64(len(ex.tgt)), &pdf.ReaderOptions{ErrorHandling: pdf.ErrorHandlingReport})
+		if err != nil {
+			f.add("target-unreadable", "the target does not reopen: %v", err)
+			return f, "error"
+		}
+		tr = fileTarget{rd}
 	}
 	ck := newChecker(s, tgtCfg, tr, &f)
-	lastR := map[int]pdf.Reference{}
+	lastR := map[int]pdf.Reference{} // by lastKey
 	for k, st := range ex.steps {
 		where := fmt.Sprintf("step %d (%s)", k, st.op)
 		switch st.op.K {
@@ -411,20 +531,22 @@ func judge(s *source, prog []Op, tgtCfg string, ex *execution) (f fails, outcome
 			ck.redirect[st.op.J] = st.ref
 			ck.fresh[st.ref] = len(ck.fresh)
 			delete(lastR, st.op.J)
-		case 'R':
+		case 'R', 'G':
 			it := Item{K: 'x'}
-			if st.op.J >= 0 {
+			if st.op.K == 'G' {
+				it = Item{'g', st.op.J}
+			} else if st.op.J >= 0 {
 				it = Item{'r', st.op.J}
 			}
-			if prev, ok := lastR[st.op.J]; ok && prev != st.ref {
+			if prev, ok := lastR[lastKey(st.op)]; ok && prev != st.ref {
 				f.add("same-reference-twice:different-target", "%s: CopyReference returned %v, the earlier call for the same reference returned %v", where, st.ref, prev)
 			}
-			lastR[st.op.J] = st.ref
+			lastR[lastKey(st.op)] = st.ref
 			ck.refItem(it, st.ref, where+" result")
 		case 'C':
 			tv, err := tr.Get(st.ref, true)
 			if err != nil {
-				f.add("target-object-unreadable", "%s: the copied value does not read back: %v", where, err)
+				f.add("target-object-unreadable:"+ck.kindTag(st.op.J)+";"+ck.cfgTag(), "%s: the copied value does not read back: %v", where, err)
 				break
 			}
 			ck.plainValue(s.g[st.op.J], st.op.J, tv, where+" result")
